@@ -2,6 +2,7 @@
 mod air;
 mod exec;
 mod hints;
+mod pipeline;
 mod record;
 mod span;
 mod trace;
@@ -17,6 +18,7 @@ fn main() {
         "replay-masm" => exec::replay_masm(a(2), a(3)),
         "record-vm" => record::record_vm(a(2), a(3)),
         "air-check" => air::air_check(a(2), a(3)),
+        "pipeline" => pipeline::pipeline(a(2), a(3)),
         "hints" => hints::run_hints(a(2), a(3)),
         "determinism" => trace::determinism(a(2), a(3)),
         "iter-walk" => trace::iter_walk(a(2), a(3)),
